@@ -35,11 +35,12 @@ LEVEL_NOTE = ("Readings: 'no RPC is accepted afterwards' = after the stop call h
               "situations the real code blocks a goroutine on a sync.Mutex (http2Server.maxStreamMu held by the parked reader / Server.mu "
               "held across handlersWG.Wait), which a synctest bubble cannot settle; see the final report for the first one, which can "
               "stall a connection's writer. Trusted: Lean kernel, both models (tied by the runs), tools/instrument, Go memory model for sync/atomic.")
-GAP = "listener/OS; keepalive; serverWorker pool (NumStreamWorkers); ServeHTTP transport; several concurrent acquirers on one semaphore"
+GAP = "listener/OS; keepalive; ServeHTTP transport; several concurrent acquirers on one semaphore; the serverWorker stack-reset threshold (65536 handlers on one worker)"
 ASSUMPTIONS = ["one HandleStreams reader per connection (sequential acquire)", "sync/atomic operations are sequentially consistent",
                "fewer than 2^63 concurrent handlers (int64 counter)"]
 RULE = ("s_sema: random legal schedules of the acquirer and releasers for cap 0..4, stepped at the yield points; s_serverstop: random "
-        "scenarios (1-3 connections, MaxConcurrentStreams 1..4, with/without WaitForHandlers) of dial/start/cancel/finish with 0-2 stop "
+        "scenarios (1-3 connections, MaxConcurrentStreams 1..4, with/without WaitForHandlers, with NumStreamWorkers 0/1/2/8 so that "
+        "handlers are dispatched both to fresh goroutines and to busy/idle pooled workers) of dial/start/cancel/finish with 0-2 stop "
         "calls (GracefulStop, Stop, GracefulStop then Stop), biased to client cancellations so that handler slots are held by "
         "cancelled streams and new streams park in the quota; every handler is finally told to return. Non-trivial: a case with at "
         "least one blocked acquire (s_sema) / a stop call or a cancelled RPC (s_serverstop).")
@@ -212,7 +213,11 @@ def stop_case(rng, n_ops, tag):
     cap = rng.choice([1, 1, 2, 2, 3, 4])
     wait = rng.random() < 0.25
     sim = Sim(cap)
-    ops = ["serve %d%s" % (cap, " wait" if wait else "")]
+    # grpc.NumStreamWorkers: handlers may run on pooled worker goroutines instead of fresh ones; the
+    # per-connection limit must hold on both dispatch paths (k=1: the pool is usually busy, k=8: a
+    # worker is always idle when a stream arrives)
+    workers = rng.choice([0, 0, 0, 1, 2, 8])
+    ops = ["serve %d%s%s" % (cap, " wait" if wait else "", " w%d" % workers if workers else "")]
     nconn = 0
     nrpc = 0
     stop_budget = rng.choice([0, 1, 1, 2])
